@@ -546,12 +546,14 @@ func (m *Mux) serveHTTP(w http.ResponseWriter, r *http.Request) error {
 		hasBody:        r.ContentLength > 0 || r.ContentLength == -1,
 	}
 	herr := hd.handler(&m.opts, stream)
+
+	// Try to send Trailers, might not be respected.
+	setOutgoingHeader(w.Header(), stream.trailer)
+
 	// Handle stats.
 	if sh := m.opts.statsHandler; sh != nil {
 		endTime := time.Now()
 
-		// Try to send Trailers, might not be respected.
-		setOutgoingHeader(w.Header(), stream.trailer)
 		sh.HandleRPC(ctx, &stats.OutTrailer{
 			Trailer: stream.trailer.Copy(),
 		})
